@@ -500,6 +500,7 @@ fn close_mode(inputs: &[Value], si: usize, sn: usize, out: &mut TraceOut, pend: 
                 let dropper = std::thread::spawn(move || {
                     dt.store(unsafe { libc::syscall(libc::SYS_gettid) } as u64, Ordering::SeqCst);
                     drop(kv);
+                    shim::mark("dropped");
                     mark("drv.dropped");
                 });
                 if kind == "writer-busy" {
@@ -532,6 +533,14 @@ fn close_mode(inputs: &[Value], si: usize, sn: usize, out: &mut TraceOut, pend: 
                 ev["changed_between_drop_and_worker_exit"] = json!(by_others > 0);
                 ev["mutating_calls_between_drop_and_worker_exit"] = json!(by_others);
                 ev["calls_of_the_drop_itself"] = json!(calls_until_gone.iter().filter(|c| c.mutating() && c.tid == dtid).count());
+                // once the drop has RETURNED nobody else may change the directory any more, whatever was in flight at
+                // the drop (a drop that returns while a write or a merge of its store is still at work leaves a
+                // directory that cannot be handed to anybody)
+                let returned_at = calls_until_gone.iter().position(|c| c.kind == "mark" && c.file == "dropped");
+                ev["changes_by_others_after_the_drop_returned"] = json!(match returned_at {
+                    Some(i) => calls_until_gone[i..].iter().filter(|c| c.mutating() && c.kind != "fsync" && c.tid != dtid).count() as i64,
+                    None => -1,
+                });
                 ev["after"] = use_closed_handle(&h);
                 let calls = shim::take_calls();
                 ev["mutating_calls_after_drop"] = json!(calls.iter().filter(|c| c.mutating()).count());
@@ -878,6 +887,29 @@ fn bg_mode(inputs: &[Value], si: usize, sn: usize, out: &mut TraceOut, pend: &Pe
                     for j in 0..8 {
                         let _ = h.del(Bytes::from(format!("k{j}")));
                     }
+                }
+                // the write that crosses the trigger (the ninth: 5 dead of 9) is HELD between its append and the
+                // accounting of the entry it overwrites while the merge task checks twice; then it goes on and nobody
+                // writes any more: whatever the task concluded while the write was half done, the merge is due within
+                // an interval of the moment the write returned
+                "frag-held" => {
+                    for j in 0..4 {
+                        let _ = h.set(Bytes::from(format!("k{j}")), val(1));
+                    }
+                    for j in 0..4 {
+                        let _ = h.set(Bytes::from(format!("k{j}")), val(2));
+                    }
+                    ev["merges_before_crossing"] = json!(points("merge.selected").len());
+                    arm("put.publishing");
+                    let h2 = h.clone();
+                    let w = std::thread::spawn(move || h2.set(Bytes::from_static(b"k0"), Bytes::from(vec![b'v'; 3])));
+                    let parked = wait_parked(Duration::from_secs(3));
+                    ev["parked"] = json!(parked);
+                    let seen = points("bg.merge.woke").len();
+                    wait_until(|| points("bg.merge.woke").len() >= seen + 2, Duration::from_millis(interval * 4 + 500));
+                    release();
+                    let _ = w.join();
+                    disarm();
                 }
                 // as "frag", and the first background merge fails (its hint-file create): the trigger is
                 // still exceeded afterwards, so the merge must be tried again within the next interval
